@@ -701,6 +701,13 @@ func rewriteSelect(s *ast.SelectStmt) ast.Stmt {
 		idx++
 	}
 	used = true
+	if id, ok := args[0].(*ast.Ident); ok && id.Name == "false" {
+		// A select whose clauses all end in return (or an empty select) is a
+		// terminating statement; a switch is one only with a default clause.
+		clauses = append(clauses, &ast.CaseClause{List: nil, Body: []ast.Stmt{
+			&ast.ExprStmt{X: &ast.CallExpr{Fun: ast.NewIdent("panic"), Args: []ast.Expr{&ast.BasicLit{Kind: token.STRING, Value: `"simrt: select returned no case"`}}}},
+		}})
+	}
 	sw := &ast.SwitchStmt{
 		Init: &ast.AssignStmt{Lhs: []ast.Expr{selv}, Tok: token.DEFINE, Rhs: []ast.Expr{call("Select", args...)}},
 		Tag:  &ast.SelectorExpr{X: selv, Sel: ast.NewIdent("I")},
